@@ -55,7 +55,7 @@ var fwSeq int64
 
 func newForwarder(srv erpc.Peer) (*forwarder, error) {
 	f := &forwarder{srv: srv, conns: map[net.Conn]*Conn{}}
-	l, err := net.Listen("tcp", "127.0.0.1:0")
+	l, err := LoopListen()
 	if err != nil {
 		return nil, err
 	}
